@@ -150,7 +150,7 @@ CHECKS["C15"] = dict(
          " Continuation (Props/C15b.lean): the item index an error names, over whole histories of list operations — a model of the items' "
          "back-references (list objects by identity, derivations, assignment of derived lists, loads) in which every item of the held list points at "
          "the held list after every history (run_inv), hence the named index is the held index (index_right_after_any_history); the code before F50 "
-         "is refuted by a four-step history. The links stream compares real histories with this model step by step.",
+         "is refuted by a four-step history. The links stream compares real histories with this model step by step. Props/C15c.lean (F74): the path names every ancestor whatever the ancestors hold; the three walks up the parent links are pinned to the identity test (parent_walks_code).",
     note=CFG_NOTE + " Unknown keys on non-dynamic configurations raise AttributeError (not a declared field). Messages are not compared.",
     technique="Lean 4 proof (case analysis over the wrapped regions of the operation model) + model/implementation correspondence",
     design="6 C15")
@@ -181,7 +181,7 @@ CHECKS["C14"] = dict(
          "of assignments, loads and resets on a configuration level the values, statuses and tape position are those of an abstract "
          "map computed from the schema and the world alone (refinement by induction over histories); hence a value taken from a set "
          "variable survives any number of loads, the last accepted assignment wins over variable and loads, a reset returns to the "
-         "variable's value, and bindings not in force are unobservable.",
+         "variable's value, and bindings not in force are unobservable. C14b.env_equals_assignment: a set variable gives the field what assigning the same text gives (status apart); the round-11 stream compares exactly that on the real code for leaf fields with defaults and blank variables.",
     note=CFG_NOTE + " Schemas are built top-down as the property states. Known finding F10: typed list/dict fields ignore their variable "
          "at construction while loads skip them (proved about the model: env_ignored_by_lists); the challenge-with-default case was repaired.",
     technique="Lean 4 proof (closed-form naming by induction over the schema chain; case analysis of __setdefault__/load_tree) + model/implementation correspondence",
@@ -213,7 +213,7 @@ CHECKS["C10"] = dict(
          "Continuation (Props/C10b.lean, Config/Nested.lean): the walk that renders configurations held below nested containers "
          "(the repair of F38) puts the caller's rendering at every configuration position at every depth and changes nothing else; "
          "no string the inner renderings and the leaves do not mention survives, whatever the unmasked renderings contained; "
-         "compared with Config._render_nested on random nestings, agreeing and disagreeing shapes.",
+         "compared with Config._render_nested on random nestings, agreeing and disagreeing shapes. Rounds 11-12: Config.to_tree and Config._render_nested are read whole from the source and pinned (to_tree_code_order, render_nested_code_order); configurations held in tuples by untyped fields (F77), options leaking between declarations of one field class, and extension fields are driven under every mask.",
     note=CFG_NOTE + " len(str(value)) is modelled for str/int/bool values. Document-level absence of markers is explored, the tree-level "
          "statement is proved. Nested containers of configurations have their own small model (the configuration model has no such slot); "
          "the inner configurations' renderings are parameters there.",
